@@ -28,6 +28,7 @@ import (
 	"time"
 
 	"github.com/miekg/dns"
+	"github.com/semihalev/sdns/config"
 	"github.com/semihalev/sdns/internal/authority"
 	"github.com/semihalev/sdns/internal/verif/vlib"
 	"github.com/semihalev/sdns/middleware"
@@ -82,6 +83,7 @@ var (
 	refMap map[uint64][2]int64 // oracle's reference: key → (tag, expiry ns); written from the property text
 	servs  map[uint64]*authority.Servers
 	meta   *middleware.ResponseMeta
+	replCache *cache.Cache
 	metaIn []int64 // oracle: every non-zero deadline folded so far
 )
 
@@ -182,7 +184,7 @@ func execFn(f []string) vlib.Res {
 	}
 	if f[1] == "new" {
 		switch f[0] {
-		case "mc", "mnz", "mttl", "nsttl", "lease", "rem":
+		case "mc", "mnz", "mttl", "nsttl", "lease", "rem", "repl":
 			return vlib.Res{Impl: "ok"} // case header of a stateless group (shrinker anchor)
 		}
 	}
@@ -327,6 +329,32 @@ func execFn(f []string) vlib.Res {
 			}
 		}
 		return vlib.Res{Impl: fmtT(got) + " " + strconv.FormatUint(gk, 10), Oracle: or, Tags: "nt"}
+	case "repl":
+		// the prefetch write-back on the REAL Store.ReplaceIfCurrent:
+		// repl <have> <kind> <ttl s> <cut of the claimed entry|z> <cut of the refresh|z> <cutKey>
+		if replCache == nil {
+			replCache = cache.New(&config.Config{CacheSize: 1024, Expire: 600})
+		}
+		have, kind := f[1], f[2]
+		ttl := uint32(vlib.AtoU64(f[3]))
+		haveCut, cut, ck := parseT(f[4]), parseT(f[5]), vlib.AtoU64(f[6])
+		replaced, gotCut, gotKey, found := cache.VerifC08Replace(replCache, have, kind, ttl, haveCut, cut, ck)
+		impl := "replaced=" + vlib.B(replaced) + " none"
+		if found {
+			impl = fmt.Sprintf("replaced=%s cut=%s key=%d", vlib.B(replaced), fmtT(gotCut), gotKey)
+		}
+		// oracle (property text): what a background refresh writes is still bounded by the
+		// lease it was learned through — never unbounded, never later than the refresh's cut
+		or := "ok"
+		if found && !cut.IsZero() {
+			switch {
+			case gotCut.IsZero():
+				or = fmt.Sprintf("FAIL sig=Store.ReplaceIfCurrent/refresh-drops-cut/%s have=%s", kind, have)
+			case gotCut.After(cut):
+				or = fmt.Sprintf("FAIL sig=Store.ReplaceIfCurrent/refresh-extends-cut/%s have=%s", kind, have)
+			}
+		}
+		return vlib.Res{Impl: impl, Oracle: or, Tags: "nt"}
 	case "rem":
 		stored, ttl, cut, now := parseT(f[1]), vlib.AtoI64(f[2]), parseT(f[3]), parseT(f[4])
 		got := int64(cache.VerifC08Remaining(stored, time.Duration(ttl), cut, now))
@@ -392,7 +420,14 @@ func genTTLs(r *vlib.R, allowEmpty bool) string {
 func genFnCase(r *vlib.R, emit func(string)) int {
 	n := 0
 	e := func(s string) { emit(s); n++ }
-	switch r.Intn(8) {
+	switch r.Intn(9) {
+	case 8: // prefetch write-back
+		e("repl new")
+		for i := 0; i < 8; i++ {
+			kinds := []string{"pos", "nx", "nodata", "servfail"}
+			cut := genT(r, nil)
+			e(fmt.Sprintf("repl %s %s %d %s %s %d", vlib.Pick(r, kinds), vlib.Pick(r, kinds), vlib.Pick(r, []int{1, 5, 60, 300, 86400}), genT(r, nil), cut, 1+r.Intn(9)))
+		}
 	case 0, 1: // authority cache history
 		e("ac new")
 		now := int64(0)
@@ -540,6 +575,14 @@ func gen(r *vlib.R, n int, tier string, emit func(string)) {
 		used += genL3Case(r, i, emit)
 	}
 	closeScen()
+	// the real-time cases (≈1.5 s of wall clock each): a couple per run
+	slow := 2
+	if tier == "thorough" {
+		slow = 6
+	}
+	for i := 0; i < slow; i++ {
+		emit(fmt.Sprintf("l3 slowref sec=%d delay=%d act=%s", r.Intn(2), vlib.Pick(r, []int{1200, 1300, 1500}), vlib.Pick(r, []string{"withdraw", "repoint"})))
+	}
 	fn := n
 	if fn < 1500 {
 		fn = 1500
